@@ -605,6 +605,7 @@ def program_recipes(steered: bool, ib: int):
 class _Trace:
     def __init__(self):
         self.events = []
+        self.starts = []
         self.pending = None
 
     def listener(self):
@@ -614,6 +615,7 @@ class _Trace:
         class L(Interpreter.Listener):
             def will_interpret_op(self, op, args):
                 tr.pending = (op, args)
+                tr.starts.append((op, args))
 
             def did_interpret_op(self, op, results):
                 tr.events.append((op, tr.pending[1] if tr.pending and tr.pending[0] is op else (), results))
@@ -680,10 +682,66 @@ def _localise(module, name, iargs, ib):
             return ({"op": op.name, "pred": pred, "ty": ty, "kind": kind, "diag": diag, "input_form": form},
                     f"first divergent op: {op.name} {pred_name(op.name, pred)} : {ty} on {args!r} -> {g!r}, "
                     f"MLIR semantics bit pattern {x!r}")
+    if crashed is None:
+        ctl = _localise_control(module, name, iargs, ib, tr)
+        if ctl is not None:
+            return ctl
     if crashed is not None and tr.pending is not None:
         op = tr.pending[0]
         return ({"op": op.name, "pred": "-", "ty": "-", "kind": "crash:" + type(crashed).__name__, "diag": "-",
                  "input_form": "-"}, f"raised in {op.name} on {tr.pending[1]!r}: {crashed!r:.200}")
+    return None
+
+
+def _same_value(iv, rv, t, ib) -> bool:
+    if rv is refsem.POISON:
+        return True
+    if _is_f(t):
+        return isinstance(iv, (int, float)) and refsem.values_equal(float(iv), rv)
+    if t == "index" or (t[0] == "i" and t[1:].isdigit()):
+        return isinstance(iv, int) and (int(iv) & ((1 << refsem.int_width(t, ib)) - 1)) == rv
+    return True
+
+
+def _localise_control(module, name, iargs, ib, tr):
+    """No arith op misbehaves on its own inputs: compare the two executions op by op.  The first position where
+    another op runs, or the same op sees other operand values, blames the control-flow op that led there."""
+    fr_args = []
+    fop = [o for o in module.walk() if o.name == "func.func" and o.properties["sym_name"].data == name][0]
+    for v, a in zip(iargs, fop.regions[0].first_block.args):
+        fr_args.append(v)
+    rtrace: list = []
+    try:
+        refsem.run_function(module, name, tuple(fr_args), index_bits=ib, fuel=20000, trace=rtrace)
+    except refsem.UnsupportedOp:
+        return None
+    itrace = [(op, args) for op, args, _ in tr.events]
+    # tr.events is in completion order; rebuild start order from the listener's start log
+    itrace = tr.starts
+
+    def blame(k):
+        if k == 0:
+            return "func.func"
+        prev = itrace[k - 1][0]
+        if prev.name.startswith("cf.") or prev.name == "func.call":
+            return prev.name
+        par = prev.parent_op()
+        return par.name if par is not None else prev.name
+    for k in range(max(len(itrace), len(rtrace))):
+        if k >= len(itrace) or k >= len(rtrace) or itrace[k][0] is not rtrace[k][0]:
+            who = blame(min(k, len(itrace)))
+            return ({"op": who, "pred": "-", "ty": "-", "kind": "wrong_control_flow", "diag": "-",
+                     "input_form": "-"},
+                    f"executions diverge at step {k}: interpreter runs "
+                    f"{itrace[k][0].name if k < len(itrace) else 'nothing'}, reference runs "
+                    f"{rtrace[k][0].name if k < len(rtrace) else 'nothing'}")
+        op = itrace[k][0]
+        for iv, rv, o in zip(itrace[k][1], rtrace[k][1], op.operands):
+            if not _same_value(iv, rv, refsem.type_name(o.type), ib):
+                who = blame(k)
+                return ({"op": who, "pred": "-", "ty": "-", "kind": "wrong_value_passed", "diag": "-",
+                         "input_form": "-"},
+                        f"step {k}: {op.name} receives {itrace[k][1]!r}, reference {rtrace[k][1]!r}")
     return None
 
 
